@@ -42,11 +42,15 @@ class MipsInstruction(Instruction):
     isa = isa
 
 
-def make_r(mnemonic, opcode, funct, shamt=0):
+def make_r(mnemonic, opcode, funct, shamt=0, shift=False):
     rs = Operand("rs", MipsRegister, read=True)
     rt = Operand("rt", MipsRegister, read=True)
     rd = Operand("rd", MipsRegister, write=True)
-    syntax = Syntax([mnemonic, " ", rd, ",", " ", rs, ",", " ", rt])
+    if shift:
+        # shift by register: "sllv rd, rt, rs" means rd = rt << rs
+        syntax = Syntax([mnemonic, " ", rd, ",", " ", rt, ",", " ", rs])
+    else:
+        syntax = Syntax([mnemonic, " ", rd, ",", " ", rs, ",", " ", rt])
     patterns = {
         "opcode": opcode,
         "rs": rs,
@@ -153,9 +157,9 @@ Ori = make_i("ori", 13)
 Xori = make_i("xori", 14)
 Lui = make_i("lui", 15)
 
-Sllv = make_r("sllv", 0, 4)
-Srlv = make_r("srlv", 0, 6)
-Srav = make_r("srav", 0, 7)
+Sllv = make_r("sllv", 0, 4, shift=True)
+Srlv = make_r("srlv", 0, 6, shift=True)
+Srav = make_r("srav", 0, 7, shift=True)
 
 
 class Jr(MipsInstruction):
@@ -299,7 +303,7 @@ def pattern_xor32(context, tree, c0, c1):
 @isa.pattern("reg", "SHLU32(reg, reg)", size=4, cycles=1, energy=1)
 def pattern_shl(context, tree, c0, c1):
     d = context.new_reg(MipsRegister)
-    context.emit(Sllv(d, c1, c0))
+    context.emit(Sllv(d, c0, c1))
     return d
 
 
@@ -307,7 +311,7 @@ def pattern_shl(context, tree, c0, c1):
 @isa.pattern("reg", "SHRU32(reg, reg)", size=4, cycles=1, energy=1)
 def pattern_shr(context, tree, c0, c1):
     d = context.new_reg(MipsRegister)
-    context.emit(Srlv(d, c1, c0))
+    context.emit(Srlv(d, c0, c1))
     return d
 
 
